@@ -340,6 +340,9 @@ static void check_component_metric(Ctx &ctx, vproxy &px, std::string const &cvna
     }
 }
 
+static const cvm::rvector body_ref[4] = {cvm::rvector(1.0, 0.2, 0.1), cvm::rvector(-0.3, 1.1, 0.2), cvm::rvector(-0.5, -0.9, 0.6),
+                                         cvm::rvector(-0.2, -0.4, -0.9)};
+
 int main(int argc, char **argv)
 {
   Args args(argc, argv);
@@ -405,10 +408,11 @@ int main(int argc, char **argv)
   }
 
   // one proxy/module for the whole run (colvarvalue needs cvm for error reporting)
-  vproxy *px = new vproxy(4);
+  vproxy *px = new vproxy(8);  // atoms 1-4: points of the scalar components; atoms 5-8: a rigid body for the orientation-type angles
   px->set_cell(true, 4.0, 4.0, 4.0);  // orthorhombic cell for the minimum-image metric of distanceVec
   px->x[0] = cvm::rvector(1, 0, 0); px->x[1] = cvm::rvector(0, 0, 0);
   px->x[2] = cvm::rvector(0, 0, 1); px->x[3] = cvm::rvector(0, 1, 1);
+  for (int k = 0; k < 4; k++) px->x[4 + k] = body_ref[k];
   std::string conf;
   struct PC { std::string name; double P, c; };
   std::vector<PC> pcs = {{"d0", 360, 0}, {"d180", 360, 180}, {"dm90", 360, -90}, {"z2pi", 2 * PI_, 0}, {"z2pic", 2 * PI_, 1.0},
@@ -424,7 +428,21 @@ int main(int argc, char **argv)
   conf += "colvar { name dp\n distancePairs {\n group1 { atomNumbers 1 2 }\n group2 { atomNumbers 3 }\n } }\n";
   conf += "colvar { name ca\n cartesian {\n atoms { atomNumbers 1 }\n } }\n";
   conf += "colvar { name z3\n distanceZ { period 3.0\n wrapAround -1.5\n main { atomNumbers 1 }\n ref { atomNumbers 2 }\n } }\n";
-  if (px->config(conf) != 0) { fprintf(stderr, "HARNESS-ERROR: config failed: %s\n", px->errtxt.c_str()); return 2; }
+  // every periodic component at three wrap centres: the value the variable REPORTS must lie in the interval centred on wrapAround
+  struct RC { std::string comp, body; double P; };
+  std::vector<RC> rcs = {
+    {"dihedral", "group1 { atomNumbers 1 }\n group2 { atomNumbers 2 }\n group3 { atomNumbers 3 }\n group4 { atomNumbers 4 }\n", 360},
+    {"polarPhi", "atoms { atomNumbers 1 }\n", 360},
+    {"spinAngle", "atoms { atomNumbers 5 6 7 8 }\n refPositions (1.0, 0.2, 0.1) (-0.3, 1.1, 0.2) (-0.5, -0.9, 0.6) (-0.2, -0.4, -0.9)\n axis (0, 0, 1)\n", 360},
+    {"eulerPhi", "atoms { atomNumbers 5 6 7 8 }\n refPositions (1.0, 0.2, 0.1) (-0.3, 1.1, 0.2) (-0.5, -0.9, 0.6) (-0.2, -0.4, -0.9)\n", 360},
+    {"eulerPsi", "atoms { atomNumbers 5 6 7 8 }\n refPositions (1.0, 0.2, 0.1) (-0.3, 1.1, 0.2) (-0.5, -0.9, 0.6) (-0.2, -0.4, -0.9)\n", 360},
+    {"distanceZ", "period 3.0\n main { atomNumbers 1 }\n ref { atomNumbers 2 }\n", 3.0}};
+  std::vector<double> rfrac = {0.0, 0.5, -0.25, 0.8};  // wrap centre as a fraction of the period
+  for (auto &rc : rcs)
+    for (size_t k = 0; k < rfrac.size(); k++)
+      conf += "colvar { name rep_" + rc.comp + "_" + std::to_string(k) + "\n " + rc.comp + " {\n " +
+              (k ? "wrapAround " + num(rfrac[k] * rc.P) + "\n " : std::string("")) + rc.body + "} }\n";
+  if (px->config(conf) != 0) { fprintf(stderr, "HARNESS-ERROR: config failed: %s\n", px->errtxt.c_str()); return 3; }
 
   Ctx c{&total, ""};
   c.tname = "scalar"; check_manifold(c, colvarvalue::type_scalar, scal, false, false);
@@ -443,6 +461,15 @@ int main(int argc, char **argv)
     c.tname = "periodic:" + pc.name;
     check_periodic(c, *px, pc.name, pc.P, pc.c, vals);
   }
+  // the same through every periodic component type (the variable's wrap is the component's)
+  for (auto &rc : rcs)
+    for (size_t k = 0; k < rfrac.size(); k++) {
+      std::vector<double> vals;
+      for (double f : {0.0, 0.25, 0.5, 0.51, 0.999})
+        for (int m : {-2, 0, 1}) vals.push_back(rfrac[k] * rc.P + (f - 0.5) * rc.P + m * rc.P);
+      c.tname = "periodic:" + rc.comp;
+      check_periodic(c, *px, "rep_" + rc.comp + "_" + std::to_string(k), rc.P, rfrac[k] * rc.P, vals);
+    }
   // component-level metrics: 3-vectors inside and across the cell, with and without minimum image
   {
     std::vector<V> v3;
@@ -452,6 +479,53 @@ int main(int argc, char **argv)
     c.tname = "component:distanceDir"; check_component_metric(c, *px, "dd", unit, true, 0.0);
     c.tname = "component:distancePairs"; check_component_metric(c, *px, "dp", gv2, false, 0.0);
     c.tname = "component:cartesian"; check_component_metric(c, *px, "ca", gv3, false, 0.0);
+  }
+  // reported values: a sweep of geometries through the whole period (the angle about z of atom 1, the torsion of atoms 1-4,
+  // the rigid body turned about x, about z and about a tilted axis; for distanceZ the height of atom 1)
+  {
+    int nang = thorough ? 72 : 24;
+    long step = 0;
+    for (int mode = 0; mode < 3; mode++)
+      for (int ia = 0; ia < nang; ia++) {
+        double ang = (ia + 0.37) * 2 * PI_ / nang - PI_;
+        double ca = std::cos(ang), sa = std::sin(ang);
+        px->x[0] = cvm::rvector(1.3 * ca, 1.3 * sa, 4.5 * ang / PI_ + 0.2 * mode);
+        px->x[1] = cvm::rvector(0, 0, 0);
+        px->x[2] = cvm::rvector(0, 0, 1);
+        px->x[3] = cvm::rvector(ca * 1.0 - sa * 0.4, sa * 1.0 + ca * 0.4, 1.0 + 0.3 * mode);
+        // atom 1 also serves the dihedral: torsion of (atom1, atom2, atom3, atom4) sweeps with ang since atom 4 turns about z
+        // while atom 1 turns too; to make the torsion sweep, atom 4 turns twice as fast in mode 1 and backwards in mode 2
+        if (mode == 1) px->x[3] = cvm::rvector(std::cos(2 * ang), std::sin(2 * ang), 1.2);
+        if (mode == 2) px->x[3] = cvm::rvector(std::cos(-ang + 0.3), std::sin(-ang + 0.3), 0.8);
+        V axis = mode == 0 ? V{{1, 0, 0}} : mode == 1 ? V{{0, 0, 1}} : norml(V{{0.3, -0.5, 0.8}});
+        double h = std::sin(0.5 * ang), w = std::cos(0.5 * ang);
+        V q{{w, h * axis.c[0], h * axis.c[1], h * axis.c[2]}};
+        for (int k = 0; k < 4; k++) {
+          V p{{0, body_ref[k].x, body_ref[k].y, body_ref[k].z}};
+          V qc{{q.c[0], -q.c[1], -q.c[2], -q.c[3]}};
+          V rp = qmul(qmul(q, p), qc);
+          px->x[4 + k] = cvm::rvector(rp.c[1] + 0.7, rp.c[2] - 0.4, rp.c[3] + 0.1 * mode);
+        }
+        if (px->step(step++) != 0) { fprintf(stderr, "library failed a step on the sweep: %s\n", px->errtxt.c_str()); return 3; }
+        for (auto &rc : rcs) {
+          colvar *cv0 = px->cv("rep_" + rc.comp + "_0");
+          double v0 = cv0->value().real_value;
+          for (size_t k = 0; k < rfrac.size(); k++) {
+            colvar *cvk = px->cv("rep_" + rc.comp + "_" + std::to_string(k));
+            double v = cvk->value().real_value, center = rfrac[k] * rc.P;
+            total.count("evaluations"); total.count("reported_value_checks");
+            total.seen("nontrivial", fnv("rep" + rc.comp + std::to_string(k) + num(v)));
+            c.tname = "reported:" + rc.comp;
+            std::string det = "{\"component\":\"" + rc.comp + "\",\"period\":" + num(rc.P) + ",\"wrapAround\":" + num(center) +
+                              ",\"sweep\":" + std::to_string(mode) + ",\"angle\":" + num(ang) + ",\"reported\":" + num(v) +
+                              ",\"reported_with_centre_0\":" + num(v0) + "}";
+            double kk = (v - v0) / rc.P;
+            if (!std::isfinite(v) || std::fabs(kk - std::round(kk)) > 1e-9) viol(c, "reported-value-not-equivalent", det);
+            else if (v < center - 0.5 * rc.P - 1e-9 * rc.P || v > center + 0.5 * rc.P + 1e-9 * rc.P)
+              viol(c, "reported-value-outside-interval", det);
+          }
+        }
+      }
   }
   total.sample("{\"type\":\"unit3vector\",\"a\":" + vstr(unit[0]) + ",\"b\":" + vstr(unit[5]) + ",\"lambda\":[0,0.25,0.5,0.75,1]}");
   total.sample("{\"type\":\"quaternion\",\"a\":" + vstr(quat[2]) + ",\"b\":" + vstr(quat[3]) + "}");
